@@ -253,6 +253,36 @@ fn sq_attach_after_child_finished() {
     std::mem::forget(q);
 }
 
+// C06: ONE add_properties from a state built directly: the last record is a Properties pseudo-span
+// of ANOTHER target (any ids), the current local parent is some other span: the new attachment gets
+// a record of its own under the current local parent; the existing record is untouched.
+#[kani::proof]
+#[kani::unwind(3)]
+fn sq_step_add_properties_after_foreign_properties() {
+    concrete_env();
+    let mut q = SpanQueue::with_capacity(4);
+    let i0 = SpanId(kani::any());
+    let p0 = SpanId(kani::any());
+    let np = SpanId(kani::any());
+    kani::assume(np != p0);
+    let mut r = RawSpan::begin_with(i0, p0, Instant(5), "", RawKind::Properties);
+    r.properties = Some(vec![(Cow::Borrowed(K1), Cow::Borrowed(V1))]);
+    q.span_queue.push(r);
+    q.next_parent_id = Some(np);
+    q.add_properties([(K2, V2)]);
+    let s = &q.span_queue;
+    assert!(s.len() == 2, "an attachment was lost or merged into a record of another target");
+    assert!(s[0].id == i0 && s[0].parent_id == p0 && s[0].raw_kind == RawKind::Properties);
+    let p = s[0].properties.as_ref().unwrap();
+    assert!(p.len() == 1 && same(&p[0].0, K1) && same(&p[0].1, V1), "a record of another target received the attachment");
+    assert!(s[1].raw_kind == RawKind::Properties && s[1].parent_id == np, "attachment not under the current local parent");
+    let p1 = s[1].properties.as_ref().unwrap();
+    assert!(p1.len() == 1 && same(&p1[0].0, K2) && same(&p1[0].1, V2));
+    assert!(q.next_parent_id == Some(np), "attaching changed the local parent");
+    kani::cover!(true);
+    std::mem::forget(q);
+}
+
 // C06: with_properties hits the span the handle denotes (outer or inner, symbolic) and no other.
 #[kani::proof]
 #[kani::unwind(3)]
